@@ -1084,7 +1084,11 @@ class Engine:
             if isinstance(v, ast.Constant):
                 parts.append(v.value)
             else:
-                parts.append(self.eval(v.value, fr))
+                if v.format_spec is not None or v.conversion not in (-1, 115):
+                    raise Unsupported("f-string conversion / format spec")
+                parts.append(self.models.str_of(self, self.eval(v.value, fr)))
+        if all(isinstance(x, str) for x in parts):
+            return "".join(parts)
         return FmtStr("f-string", parts)
 
     def ex_Lambda(self, e, fr):
